@@ -20,10 +20,10 @@ def env_spec(draw, d, N, allow_noise=True, allow_transforms=True, kinds=("generi
             "scale": draw(st.sampled_from([0.3, 0.7, 1.0, 1.5]))}
     if kind == "generic":
         spec["hs"] = [draw(gens.herm_spec(d * e, 2, 2)) for _ in range(nh)]
-        stores = ["rank4", "rank4"] + (["rank4-rot"] if allow_transforms else [])
+        stores = ["rank4", "rank4"] + (["rank4-rot", "rank4-enlarged"] if allow_transforms else [])
     else:
         spec["ws"] = [[draw(gens.herm_spec(e, 2, 2)) for _ in range(d)] for _ in range(nh)]
-        stores = ["rank4", "rank3", "rank3"] + (["rank3-hilbert", "rank4-rot"] if allow_transforms else [])
+        stores = ["rank4", "rank3", "rank3"] + (["rank3-hilbert", "rank4-rot", "rank4-enlarged"] if allow_transforms else [])
     spec["noise"] = None
     if allow_noise and e > 1 and draw(st.integers(0, 3)) == 0:
         spec["noise"] = [draw(st.sampled_from(["dephase", "damp"])),
@@ -33,6 +33,9 @@ def env_spec(draw, d, N, allow_noise=True, allow_transforms=True, kinds=("generi
         spec["rot"] = draw(gens.herm_spec(d * d, 1, 2))
     if spec["store"] == "rank3-hilbert":
         spec["rot"] = draw(gens.unitary_spec(d, allow_identity=False))
+    if spec["store"] == "rank4-enlarged":
+        spec["extra"] = draw(st.integers(1, 2))
+        spec["rot"] = draw(gens.herm_spec(d * d + spec["extra"], 1, 2))
     return spec
 
 
@@ -68,6 +71,14 @@ def build_env(spec, d, N, dt=None, name=None, description=None):
         W = expm(-1j * gens.herm(spec["rot"]))
         tensors = A.rotate_rank4(tensors, W)
         tin, tout = W, W.conj().T
+    elif store == "rank4-enlarged":
+        # tensors stored in an isometrically enlarged Liouville basis: V (m x d^2), V^+ V = 1;
+        # T_in = V^+ (d^2 x m), T_out = V (m x d^2), stored M' = V M V^+
+        m = d * d + spec["extra"]
+        Wfull = expm(-1j * gens.herm(spec["rot"]))
+        V = Wfull[:, :d * d]
+        tin, tout = V.conj().T, V
+        tensors = [np.einsum('xi,abij,jy->abxy', V, M, V.conj().T) for M in tensors]
     elif store == "rank3-hilbert":
         V = gens.build_unitary(spec["rot"], d)
         rank3 = True
